@@ -621,11 +621,11 @@ Section FrameLocal.
       destruct (row <? hr (fst s)) eqn:E1; [|lia]. routed_eq.
     - unfold crows in Hin. cbn [snd] in Hin.
       destruct (row <? hr (fst s)) eqn:E1; [lia|].
-      destruct (maxrow - fr (fst s) <=? row) eqn:E2; [lia|].
+      destruct (negb (fr (fst s) =? 0) && (maxrow - fr (fst s) <=? row)) eqn:E2; [lia|].
       eexists. f_equal. f_equal; try lia. f_equal. f_equal. lia.
     - rewrite (frame_child_rows_f s EF) in Hin.
-      destruct (row <? hr (fst s)) eqn:E1; [lia|].
-      destruct (maxrow - fr (fst s) <=? row) eqn:E2; [|lia]. routed_eq.
+      destruct (row <? hr (fst s)) eqn:E1; [lia|]. rewrite EF in HF.
+      destruct (negb (fr (fst s) =? 0) && (maxrow - fr (fst s) <=? row)) eqn:E2; [|lia]. routed_eq.
   Qed.
 
   Lemma frame_cursor_ok : LocalCursor nd ki.
